@@ -3,6 +3,9 @@
 //! related to the input size. A request above the hard cap fails (the process
 //! then aborts with "memory allocation of N bytes failed", which the driver
 //! classifies as a fatal allocation violation of the run that was executing).
+//!
+//! Every allocation is also reported to the baton scheduler (`alloc_point`): under Mode T with
+//! allocation-point preemption a worker may be descheduled right there.
 
 use std::alloc::{GlobalAlloc, Layout, System};
 use std::sync::atomic::{AtomicUsize, Ordering::Relaxed};
@@ -27,6 +30,7 @@ unsafe impl GlobalAlloc for Counting {
             MAX_REQ.fetch_max(l.size(), Relaxed);
             return std::ptr::null_mut();
         }
+        simhook::baton::alloc_point();
         let p = System.alloc(l);
         if !p.is_null() {
             on_alloc(l.size());
@@ -38,6 +42,7 @@ unsafe impl GlobalAlloc for Counting {
             MAX_REQ.fetch_max(l.size(), Relaxed);
             return std::ptr::null_mut();
         }
+        simhook::baton::alloc_point();
         let p = System.alloc_zeroed(l);
         if !p.is_null() {
             on_alloc(l.size());
@@ -53,6 +58,7 @@ unsafe impl GlobalAlloc for Counting {
             MAX_REQ.fetch_max(new_size, Relaxed);
             return std::ptr::null_mut();
         }
+        simhook::baton::alloc_point();
         let q = System.realloc(p, l, new_size);
         if !q.is_null() {
             LIVE.fetch_sub(l.size(), Relaxed);
